@@ -115,8 +115,10 @@ def byline_expected(scenario, agree, p, nlines, members=2):
                         for j in range(members):
                             ev.append(("save", f"res{j}"))
                         return ev, yields, "raise"
-                    aborted = True
-                    break
+                    # handled under a policy that does not raise: the error is that member's — it has no say about this line, and the
+                    # members after it see the line as they would alone
+                    voters -= 1
+                    continue
                 matched = True
             else:
                 matched = True if scenario in ("stops_a", "stops_b") else ch.get(f"matched({cp},{L})")
@@ -156,7 +158,6 @@ def byline_judge(scenario, agree, p, nlines):
     if scenario == "abort" and not (p.choices and p.choices[-1] == ("handler re-raises", True)) and any(v for t, v in p.choices if t.endswith("raises")):
         # handled (not re-raised) error: only require that nothing escapes and the run is completed
         out.append(("handled-error", p.result[0] == "return" and ("complete_run", None) in got, f"next_by_line with {cfg}: {p.result}, events {got[-4:]}"))
-        return out
     out.append(("schedule", got == want,
                 f"next_by_line ({mode}) with {cfg}: events {got}; documented schedule {want} (per line every un-stopped member gets exactly one track_line and, unless skipped by skip_all, one consideration; "
                 "the run ends when every member has stopped; on abort every member is saved before the exception is re-raised; complete_run only on a normal end)"))
